@@ -323,11 +323,11 @@ func c10Gen(s Src) c10Case {
 // ---------------------------------------------------------------------------
 
 type c10Env struct {
-	ctx   *Ctx
-	c     c10Case
-	vars  map[string]any
-	input []fhir.Resource
-	items []any
+	ctx    *Ctx
+	c      c10Case
+	vars   map[string]any
+	input  []fhir.Resource
+	items  []any
 	dItems []any
 }
 
